@@ -329,7 +329,12 @@ fn gen_case(rng: &mut Rng, big: bool) -> Case {
     // operations (`while pool.dispatch(..).is_err() { yield }`) while the only
     // pool thread runs join's thread-joining closure, so join spins for ever.
     // Such cases drain their results first, then nobody needs the pool in join.
-    let join = if pool_limit == 1 && driver == 1 && !bad_proactor && !bombs { JoinPoint::Drained } else { join };
+    // (cases that kill workers cannot drain first; they get a second pool thread)
+    let (join, pool_limit) = match (pool_limit == 1 && driver == 1, bad_proactor || bombs) {
+        (true, false) => (JoinPoint::Drained, pool_limit),
+        (true, true) => (join, 2),
+        _ => (join, pool_limit),
+    };
     Case {
         workers,
         concurrent,
